@@ -3,15 +3,86 @@ package main
 import (
 	"encoding/json"
 	"fmt"
+	"os"
 	"strconv"
 	"strings"
 
+	"github.com/brutella/hc"
 	"github.com/brutella/hc/accessory"
 	"github.com/brutella/hc/characteristic"
 	"github.com/brutella/hc/service"
 )
 
 func init() { families["ids"] = runIDs }
+
+// buildIDAcc builds one accessory from <eid>:<svc>[+h][+p][~k|~!][^k],...
+func buildIDAcc(ai int, spec string) (*accessory.Accessory, string) {
+	p := strings.SplitN(spec, ":", 2)
+	eid, _ := strconv.Atoi(p[0])
+	a := accessory.New(accessory.Info{Name: fmt.Sprintf("acc%d", ai), ID: uint64(eid)}, accessory.TypeOther)
+	var svcs []*service.Service
+	var late [][2]int
+	if len(p) > 1 && p[1] != "" {
+		for _, ss := range strings.Split(p[1], ",") {
+			name := ss
+			hidden, primary, link := false, false, -1
+			if i := strings.Index(name, "^"); i >= 0 {
+				// ^k : k optional characteristics are added to this service AFTER all services were added
+				j := i + 1
+				for j < len(name) && name[j] >= '0' && name[j] <= '9' {
+					j++
+				}
+				k, _ := strconv.Atoi(name[i+1 : j])
+				late = append(late, [2]int{len(svcs), k})
+				name = name[:i] + name[j:]
+			}
+			linkOnly := false
+			if i := strings.Index(name, "~!"); i >= 0 {
+				// linked to a service that is never added to the accessory (its id stays 0; the ids of the others
+				// must still be the same on every build)
+				linkOnly = true
+				name = name[:i]
+			} else if i := strings.Index(name, "~"); i >= 0 {
+				link, _ = strconv.Atoi(name[i+1:])
+				name = name[:i]
+			}
+			for strings.Contains(name, "+") {
+				i := strings.LastIndex(name, "+")
+				switch name[i+1:] {
+				case "h":
+					hidden = true
+				case "p":
+					primary = true
+				}
+				name = name[:i]
+			}
+			f, ok := svcRegistry[name]
+			if !ok {
+				return nil, "unknown-service " + name
+			}
+			s := f()
+			s.Hidden, s.Primary = hidden, primary
+			if link >= 0 && link < len(svcs) {
+				s.AddLinkedService(svcs[link])
+			}
+			if linkOnly {
+				s.AddLinkedService(svcRegistry["NewBatteryService"]())
+				s.AddLinkedService(svcRegistry["NewSpeaker"]())
+				s.AddLinkedService(svcRegistry["NewLightbulb"]())
+			}
+			svcs = append(svcs, s)
+			a.AddService(s)
+		}
+	}
+	for _, l := range late {
+		for q := 0; q < l[1]; q++ {
+			c := characteristic.NewString(fmt.Sprintf("F00000%02d-0000-1000-8000-0026BB765291", q))
+			c.Perms = []string{characteristic.PermRead}
+			svcs[l[0]].AddCharacteristic(c.Characteristic)
+		}
+	}
+	return a, ""
+}
 
 // case: ids <eid>:<svc>[+h][+p][~k],<svc>... ; <eid>:...      (accessories separated by ';', no spaces)
 // every accessory is built with accessory.New (information service first), then the listed services are added in
@@ -23,6 +94,9 @@ func runIDs(id string, toks []string) (res string) {
 			res = fmt.Sprint("panic ", r)
 		}
 	}()
+	if toks[0] == "idst" {
+		return runIDsTransport(toks[1], toks[2])
+	}
 	cont := accessory.NewContainer()
 	var out []string
 	var objs []*accessory.Accessory
@@ -37,69 +111,9 @@ func runIDs(id string, toks []string) (res string) {
 			out = append(out, fmt.Sprintf("a%d=rm", ai))
 			continue
 		}
-		p := strings.SplitN(spec, ":", 2)
-		eid, _ := strconv.Atoi(p[0])
-		a := accessory.New(accessory.Info{Name: fmt.Sprintf("acc%d", ai), ID: uint64(eid)}, accessory.TypeOther)
-		var svcs []*service.Service
-		var late [][2]int
-		if len(p) > 1 && p[1] != "" {
-			for _, ss := range strings.Split(p[1], ",") {
-				name := ss
-				hidden, primary, link := false, false, -1
-				if i := strings.Index(name, "^"); i >= 0 {
-					// ^k : k optional characteristics are added to this service AFTER all services were added
-					j := i + 1
-					for j < len(name) && name[j] >= '0' && name[j] <= '9' {
-						j++
-					}
-					k, _ := strconv.Atoi(name[i+1 : j])
-					late = append(late, [2]int{len(svcs), k})
-					name = name[:i] + name[j:]
-				}
-				linkOnly := false
-				if i := strings.Index(name, "~!"); i >= 0 {
-					// linked to a service that is never added to the accessory (its id stays 0; the ids of the others
-					// must still be the same on every build)
-					linkOnly = true
-					name = name[:i]
-				} else if i := strings.Index(name, "~"); i >= 0 {
-					link, _ = strconv.Atoi(name[i+1:])
-					name = name[:i]
-				}
-				for strings.Contains(name, "+") {
-					i := strings.LastIndex(name, "+")
-					switch name[i+1:] {
-					case "h":
-						hidden = true
-					case "p":
-						primary = true
-					}
-					name = name[:i]
-				}
-				f, ok := svcRegistry[name]
-				if !ok {
-					return "unknown-service " + name
-				}
-				s := f()
-				s.Hidden, s.Primary = hidden, primary
-				if link >= 0 && link < len(svcs) {
-					s.AddLinkedService(svcs[link])
-				}
-				if linkOnly {
-					s.AddLinkedService(svcRegistry["NewBatteryService"]())
-					s.AddLinkedService(svcRegistry["NewSpeaker"]())
-					s.AddLinkedService(svcRegistry["NewLightbulb"]())
-				}
-				svcs = append(svcs, s)
-				a.AddService(s)
-			}
-		}
-		for _, l := range late {
-			for q := 0; q < l[1]; q++ {
-				c := characteristic.NewString(fmt.Sprintf("F00000%02d-0000-1000-8000-0026BB765291", q))
-				c.Perms = []string{characteristic.PermRead}
-				svcs[l[0]].AddCharacteristic(c.Characteristic)
-			}
+		a, bad := buildIDAcc(ai, spec)
+		if a == nil {
+			return bad
 		}
 		objs = append(objs, a)
 		if err := cont.AddAccessory(a); err != nil {
@@ -207,4 +221,49 @@ func runIDs(id string, toks []string) (res string) {
 		js = append(js, fmt.Sprintf("%d:%s", int(aid), strings.Join(ids, ",")))
 	}
 	return strings.Join(out, " ") + " json=" + strings.Join(js, ";") + " wf=" + wf
+}
+
+// case: idst <spec> fresh|retry|retry2
+// The same accessory objects handed to hc.NewIPTransport: directly (fresh), or after one (retry) or two (retry2)
+// attempts that failed (a setup code the library refuses); observed: the ids the objects have once the transport exists.
+func runIDsTransport(spec, mode string) (res string) {
+	defer func() {
+		if r := recover(); r != nil {
+			res = fmt.Sprint("panic ", r)
+		}
+	}()
+	var objs []*accessory.Accessory
+	for ai, sp := range strings.Split(spec, ";") {
+		a, bad := buildIDAcc(ai, sp)
+		if a == nil {
+			return bad
+		}
+		objs = append(objs, a)
+	}
+	dir := tempDir()
+	defer os.RemoveAll(dir)
+	fails := map[string]int{"fresh": 0, "retry": 1, "retry2": 2}[mode]
+	for i := 0; i < fails; i++ {
+		pin := []string{"12345678", "1234"}[i%2]
+		if _, err := hc.NewIPTransport(hc.Config{Pin: pin, StoragePath: dir}, objs[0], objs[1:]...); err == nil {
+			return "the-refused-setup-code-was-accepted"
+		}
+	}
+	t, err := hc.NewIPTransport(hc.Config{Pin: "00102003", StoragePath: dir}, objs[0], objs[1:]...)
+	if err != nil {
+		return "transport-error " + err.Error()
+	}
+	_ = t
+	var out []string
+	for ai, a := range objs {
+		var ids []string
+		for _, s := range a.Services {
+			ids = append(ids, fmt.Sprint(s.ID))
+			for _, c := range s.Characteristics {
+				ids = append(ids, fmt.Sprint(c.ID))
+			}
+		}
+		out = append(out, fmt.Sprintf("a%d=%d:%s", ai, a.ID, strings.Join(ids, ",")))
+	}
+	return strings.Join(out, " ")
 }
